@@ -30,6 +30,9 @@ CHECKS = {
  "C14": ("encode/parse round-trip monitor with a strict-JSON reader: instance -> json.dumps(cls=JSONEncoder) -> standard-JSON check -> Cls.__from__(text) -> field-wise type-aware equality",
          "Over generated data classes whose instances are drawn from the JSON-faithful domain the property states (all listed scalar types, containers, nesting; offsets of both signs incl. seconds; negative/sub-second durations; JS-unsafe numbers; +-inf): encoding succeeds, the text is standard JSON, and the re-parsed instance is equal.",
          "Trusted: json (stdlib) as the strict reader, eq() in vmon/props/c14.py. Two known findings (Infinity token; attribute-based DataClass has no encoder); one defect repaired (negative UTC offsets).", "§4 C14"),
+ "C15": ("schema-built-type monitor: generated schema documents over the supported keyword fragment are built with JsonSchemaParser and every value the built type returns under strict options is validated against the source document by the independent jsonschema package",
+         "Building must succeed for every generated document (odd property names included); every accepted result, JSON-encoded, must validate against its source schema. Rejections of valid instances (stricter) are counted, not judged.",
+         "Trusted: the jsonschema package. Seven defects repaired in /repo; eleven mechanism-keyed known findings remain (recognised by document shape + failing keyword), which narrows what this check can still see around oneOf, prefixItems extras and minProperties.", "§4 C15"),
  "C16": ("history + executable sequential model over uniquely tagged registrations; bounded-exhaustive histories on a fresh TypeRegistry, random histories incl. base registries and the library's global transformer/encoder registries",
          "Every read (resolve / type_transform / plain-typed Schema field / json.dumps) in every history of length <= 5 (quick; 6 thorough) over a 13-symbol alphabet, plus random longer histories, must return the registration the no-cache 'highest priority, most recent wins' model predicts. Exhaustive for the stated alphabet and bound; exploration beyond it.",
          "Trusted: model_resolve()/matches() in vmon/props/c16.py (25 lines). Two defects found and repaired in /repo (b8f56f5, 28f56ca).", "§4 C16"),
